@@ -52,6 +52,11 @@ CHECKS = {
         "note": "Trusted: TLC, the MPO-tensor construction from a joint unitary (harness, validated against the unchanged tree), numpy. Environments are monomial unitaries (no superposition-creating gates); exhaustive for <=2 environments x 2 steps, sampled (TLC -simulate) beyond.",
         "technique": "TLA+ reference semantics + TLC enumeration / simulation; spec->code replay with hand-built process tensors",
     },
+    "C18": {
+        "text": "PTContract.tla fixes the meaning of a control schedule (Pre before the record, Post after it, insertion order, float times acting at the nearest step); TLC enumerates every schedule of <= 2 controls (and stacked triples) over all steps incl. first and last x pre/post x {prime-scaled kick, kick, identity, projector} x {step, float before, float after} and emits the exact recorded states; prime-scaled non-commuting monomial controls make every recorded state identify which controls acted and in which order; replayed through compute_dynamics, compute_dynamics_with_field, compute_gradient_and_dynamics (trivial and SWAP-memory ancilla environments) and PtTebd+ChainControl.",
+        "note": "Trusted: TLC, monomial control alphabet, harness construction of superoperators. Known finding (mixed int/float time specifications for one step) is accepted only when the real states equal the deviated specification's prediction exactly.",
+        "technique": "TLA+ reference semantics + TLC enumeration of control schedules; spec->code replay through four APIs; deviation as named spec constant",
+    },
 }
 for e in ENGINES:
     e["serves_properties"] = sorted(CHECKS)
